@@ -448,12 +448,15 @@ def validate(lines, module, cfg, tag, nchunks=NCPU, maxfix=12):
         for l in seg:
             c += 30 if ('"k":"mul"' in l or '"k":"msm"' in l) else 1
         return c
-    order = sorted(range(len(segs)), key=lambda i: -cost(segs[i]))
-    load = [0] * k
-    for i in order:
-        j = load.index(min(load))
-        chunks[j].extend(segs[i])
-        load[j] += cost(segs[i])
+    if k == 1:
+        chunks[0] = list(lines)                 # one TLC run: keep the recorded order (state may span segments)
+    else:
+        order = sorted(range(len(segs)), key=lambda i: -cost(segs[i]))
+        load = [0] * k
+        for i in order:
+            j = load.index(min(load))
+            chunks[j].extend(segs[i])
+            load[j] += cost(segs[i])
     jobs = [(c, module, cfg, "%s_%d" % (tag, i), maxfix) for i, c in enumerate(chunks) if c]
     with ThreadPoolExecutor(NCPU) as ex:
         res = list(ex.map(_validate_chunk, jobs))
